@@ -12,7 +12,7 @@ from vp import hx
 from c04 import enc_entries
 
 CLASSES = "open_w,open_r,open_dir,read,write,mkdir,unlink,rmdir,rename,chmod,readdir,truncate,symlink,link"
-ERRNOS = {"EIO": 5, "EACCES": 13, "ENOSPC": 28}
+ERRNOS = {"EIO": 5, "EACCES": 13, "ENOSPC": 28, "EPERM": 1, "EROFS": 30}
 OLD_ENV = [("all", "append", b"PATH", b"/old"), ("all", "delim", b"PATH", b":"), ("launch", "override", b"OLD", b"1"), ("process:web", "override", b"ROLE", b"web"),
            ("process:worker", "default", b"ROLE", b"w")]
 NEW_ENV = [("build", "override", b"CC", b"gcc"), ("launch", "prepend", b"NEW", b"2"), ("process:web", "append", b"ROLE", b"x")]
@@ -104,6 +104,7 @@ def prepare(root, opname):
         for p in ("p1", "p2", "p3"):
             with open(os.path.join(src, p), "wb") as f:
                 f.write(b"#!/bin/sh\necho " + p.encode() + b"\n")
+            os.chmod(os.path.join(src, p), 0o755)      # exec.d programs are executables: the copy must be one too
         if existing:
             mk_existing(layers, "L", existing)
         # a bystander layer that must never change
@@ -199,7 +200,7 @@ def run(tier, seed, work):
     res = vp.Result("C12", tier, seed, "fault_enumeration")
     shim = vp.build_shim()
     ops = QUICK_OPS if tier == "quick" else list(OPS)
-    errnos = ["EIO"] if tier == "quick" else ["EIO", "EACCES", "ENOSPC"]
+    errnos = ["EIO", "EACCES"] if tier == "quick" else ["EIO", "EACCES", "ENOSPC", "EPERM", "EROFS"]
     tasks = []
     for i, opname in enumerate(ops):
         root = os.path.join(work, "count-%d" % i)
